@@ -299,6 +299,7 @@ class Built:
         self.skipped: List[str] = []  # "kind:reason"
         self.base_gate = None
         self.ctrl_total = 0
+        self.circ_noninv = False  # a CircuitOperation whose body has no inverse is somewhere in the stack
 
 
 def _is_int(t):
@@ -438,12 +439,15 @@ def build(recipe) -> Built:
             if not ref.is_unitary:
                 b.skipped.append("inv:not_unitary")
                 continue
-            try:
+            if b.circ_noninv:
+                # known from the recipe: the stack contains a CircuitOperation whose body has no inverse.  CircuitOperation
+                # documents ValueError for negative repetitions of such a circuit: that type (any message) or the default.
+                try:
+                    new = cirq.inverse(op, None)
+                except ValueError:
+                    new = None
+            else:
                 new = cirq.inverse(op, None)
-            except ValueError as e:
-                if "not invertible" not in str(e):
-                    raise
-                new = None  # documented by CircuitOperation: negative repetitions of a non-invertible circuit
             if new is None:
                 b.skipped.append("inv:none")
                 continue
@@ -466,13 +470,14 @@ def build(recipe) -> Built:
                 # CircuitOperation.repeat: non-integer repetitions are documented TypeError/ValueError territory
                 b.skipped.append("pow:typeerror")
                 continue
-            try:
+            if b.circ_noninv and isinstance(t, int) and t < 0:
+                try:  # same documented ValueError as for cirq.inverse above (decided from the recipe, any message)
+                    new = cirq.pow(op, t, None)
+                except ValueError:
+                    b.skipped.append("pow:not_invertible")
+                    continue
+            else:
                 new = cirq.pow(op, t, None)
-            except ValueError as e:
-                if "not invertible" not in str(e):
-                    raise
-                b.skipped.append("pow:not_invertible")
-                continue
             if new is None:
                 b.skipped.append("pow:none")
                 continue
@@ -542,17 +547,14 @@ def build(recipe) -> Built:
                     ops = [op, cirq.CNOT(oq[1], oq[0])]
                     inner = compose(ref, e_ref)
             fc = cirq.FrozenCircuit(*ops)
-            if reps < 0:
-                # documented ValueError: "Negative repetitions on non-invertible circuit"
-                try:
-                    invertible = cirq.inverse(fc.unfreeze(), None) is not None
-                except ValueError as e:
-                    if "not invertible" not in str(e):
-                        raise
-                    invertible = False
-                if not invertible:
-                    b.skipped.append("circ:not_invertible")
-                    reps = -reps
+            # Is the body invertible?  Decided without provoking the error: per operation, cirq.inverse(op, default) returns
+            # the default for an operation without an inverse (the same per-operation question Moment.__pow__ asks); a
+            # nested CircuitOperation with a non-invertible body is remembered in b.circ_noninv.  The extra H/T/CNOT are.
+            body_invertible = _can_invert(b, op)
+            if reps < 0 and not body_invertible:
+                # documented ValueError of CircuitOperation ("Negative repetitions on non-invertible circuit"): not requested
+                b.skipped.append("circ:not_invertible")
+                reps = -reps
             if w.get("ids"):
                 new = cirq.CircuitOperation(fc, repetitions=reps, use_repetition_ids=True)
             elif w.get("rp") and reps != 1:
@@ -573,11 +575,21 @@ def build(recipe) -> Built:
                 ref = acc
             op = new
             b.applied.append("circ")
+            if not body_invertible:
+                b.circ_noninv = True
         else:
             b.skipped.append(f"{k}:unknown")
     b.op = op
     b.ref = ref
     return b
+
+
+def _can_invert(b, op) -> bool:
+    import cirq
+
+    if b.circ_noninv:
+        return False
+    return cirq.inverse(op, None) is not None
 
 
 def _restart(b, ref, new_op, want):
